@@ -40,3 +40,45 @@ Proof.
   - apply andb_prop in H. destruct H as [H _]. intros p q E.
     pose proof (wp_scan_sound _ _ _ _ H ltac:(lia) p q E). lia.
 Qed.
+
+(* The monitor of Limit / TimeoutLimit / MaxConnsHandler: if [lim_scan] accepts an observed log,
+   then after EVERY prefix of it the number of route handlers entered and not yet left (the
+   executor's own fs / fe events, kinds 1 and 2) is at most the capacity - whatever the other
+   events of the log say (results, hijacked connections, Close()s). *)
+Lemma lim_scan_sound : forall l n sc h i inb opn,
+  lim_scan n sc l h i inb opn = true -> i <= n ->
+  forall p q, l = p ++ q -> i + inside_after p <= n.
+Proof.
+  induction l as [|e l IH]; intros n sc h i inb opn H Hi p q E.
+  - destruct p; [cbn; lia|discriminate].
+  - destruct p as [|e' p]; [cbn; lia|]. cbn in E. inversion E; subst e' l. clear E.
+    cbn [lim_scan] in H. cbn [inside_after]. unfold wdelta.
+    destruct (nth_op sc (ea e) (eop e)) as [o|]; [|discriminate].
+    destruct (ek e =? 3) eqn:E3.
+    { apply Z.eqb_eq in E3.
+      replace (ek e =? 1) with false by (symmetry; apply Z.eqb_neq; lia).
+      replace (ek e =? 2) with false by (symmetry; apply Z.eqb_neq; lia).
+      destruct o;
+        repeat match type of H with context [if ?b then _ else _] => destruct b end;
+        apply andb_prop in H; destruct H as [_ H];
+        specialize (IH _ _ _ _ _ _ H Hi p q eq_refl); lia. }
+    destruct (ek e =? 1) eqn:E1.
+    { apply andb_prop in H. destruct H as [H Hs].
+      apply andb_prop in H. destruct H as [H _]. apply andb_prop in H. destruct H as [H _].
+      apply andb_prop in H. destruct H as [_ H]. apply Z.ltb_lt in H.
+      specialize (IH _ _ _ _ _ _ Hs ltac:(lia) p q eq_refl). lia. }
+    destruct (ek e =? 2) eqn:E2.
+    { apply andb_prop in H. destruct H as [_ Hs].
+      specialize (IH _ _ _ _ _ _ Hs ltac:(lia) p q eq_refl). lia. }
+    repeat match type of H with context [if ?b then _ else _] => destruct b end;
+      apply andb_prop in H; destruct H as [_ H];
+      specialize (IH _ _ _ _ _ _ H Hi p q eq_refl); lia.
+Qed.
+
+Lemma prop_ok_lim_sound : forall c n sc,
+  ckind c = KLim n sc -> prop_ok1 c = true ->
+  forall p q, clog c = p ++ q -> inside_after p <= Z.of_nat n.
+Proof.
+  intros c n sc K H p q E. unfold prop_ok1 in H. rewrite K in H.
+  pose proof (lim_scan_sound _ _ _ _ _ _ _ H ltac:(lia) p q E). lia.
+Qed.
